@@ -21,15 +21,18 @@ import (
 
 func transferCmd(out *cq.Out, seed uint64, tier string) {
 	rng := cq.NewRng(seed)
-	scenarios := 4
+	scenarios := 5
 	if tier == "thorough" {
-		scenarios = 8
+		scenarios = 10
 	}
 	for sc := 0; sc < scenarios; sc++ {
 		// every fourth scenario: a brand-new node joins a leader whose raft snapshot was taken when the log held exactly
 		// ONE event (last applied version 0 means both "nothing" and "version 0")
-		oneEvent := sc%4 == 3
-		newNode := sc%3 == 1 || oneEvent // a brand-new node instead of a returning one
+		oneEvent := sc%4 == 3 && sc%5 != 4
+		// every fifth scenario: the raft snapshot is taken while the log is still EMPTY; the brand-new node is brought up by a
+		// transfer that carries no event at all, and the first events arrive afterwards
+		noEvent := sc%5 == 4
+		newNode := sc%3 == 1 || oneEvent || noEvent // a brand-new node instead of a returning one
 		dir, _ := os.MkdirTemp(out.Dir, "tr")
 		var c *cluster
 		var err error
@@ -78,7 +81,7 @@ func transferCmd(out *cq.Out, seed uint64, tier string) {
 		if sc%3 == 0 {
 			pre = 1 + rng.Intn(4)
 		}
-		if oneEvent {
+		if oneEvent || noEvent {
 			pre = 0
 		}
 		if pre > 0 && !add(pre) {
@@ -101,6 +104,9 @@ func transferCmd(out *cq.Out, seed uint64, tier string) {
 		if oneEvent {
 			missed = 1
 		}
+		if noEvent {
+			missed = 0
+		}
 		if !add(missed) {
 			c.stopAll()
 			continue
@@ -114,7 +120,9 @@ func transferCmd(out *cq.Out, seed uint64, tier string) {
 			}
 		}
 		hist = append(hist, "raft snapshot + log truncation on the live nodes")
-		add(rng.Intn(3))
+		if !noEvent {
+			add(rng.Intn(3))
+		}
 		var fl *failLoadStore
 		if sc%3 == 2 || sc == 0 {
 			// the first transfer attempt breaks mid-stream: the follower must not count it as installed; raft tries again
